@@ -488,6 +488,16 @@ def check_record_creation_guarded(ctx, res: Result, cls: str, skip=("add_edge", 
                                         karg = kw.value
                                 if karg is None or _fresh_guard(cv, "_edge_list", karg, cid) is None:
                                     callers_ok = False
+                                    # a PUBLIC method hands the record-creating helper a key it never tested (and did not just
+                                    # remove): an existing record under that key is overwritten with a second id
+                                    public = not cname.startswith("_") and cname not in skip
+                                    closed = not any(isinstance(x, (ast.FunctionDef, ast.AsyncFunctionDef, ast.Lambda)) and x is not cfi.node for x in ast.walk(cfi.node))
+                                    any_test = any(_same_expr(m_.key, karg, cv) for m_ in _membership_atoms(cv, "_edge_list")) if karg is not None else True
+                                    removed = karg is not None and any(
+                                        (o.op in ("del", "pop") and o.table == "_edge_list" and o.key is not None and _same_expr(o.key, karg, cv)) for o in cv.ops(False)
+                                    )
+                                    if public and closed and karg is not None and not any_test and not removed:
+                                        res.violation("P-FRESH", cfi.short, norm(c), "_edge_list:helper-call", f"{fi.short} creates a record under a fresh id for the key it is handed; this call hands it `{norm(karg)}` without a `not in _edge_list` test: an existing record under that key is overwritten (two ids, weight not merged)", _where(cv, c))
                     if n_calls and callers_ok:
                         res.ok("P-FRESH", fi.short, norm(st.node), "_edge_list", _where(v, st.node))
                     else:
@@ -760,6 +770,39 @@ def check_remove_node(ctx, res: Result, cls: str):
                 "weight / metadata of a record is read after the record has been removed (the shrunken hyperedge loses its weight and metadata)",
                 _where(v, r),
             )
+    # P-REINSERT: the shrunken hyperedge is re-inserted whether or not a record with its key exists already - add_edge is what
+    # merges the weight into an existing record; skipping it when the key exists drops the weight of the removed record
+    for c in [n for n in walk_no_nested(v.fi.node) if isinstance(n, ast.Call) and isinstance(n.func, ast.Attribute) and is_self_attr(n.func) and n.func.attr == "add_edge" and n.args]:
+        cid = _cfgid(v, c)
+        if not any(v.cfg.reachable(_cfgid(v, r), cid) for r in calls):
+            continue
+        verdict, why = "ok", ""
+        for iff in walk_no_nested(v.fi.node):
+            if not isinstance(iff, ast.If):
+                continue
+            tid = v.cfg.by_ast.get(id(iff.test))
+            if tid is None or tid == cid:
+                continue
+            for atom, _pos in _atoms(iff.test, True):
+                exists_test = None  # the key expression whose presence the atom tests
+                if isinstance(atom, ast.Call) and isinstance(atom.func, ast.Attribute) and is_self_attr(atom.func) and atom.func.attr == "check_edge" and atom.args:
+                    exists_test = atom.args[0]
+                    is_in = True
+                elif isinstance(atom, ast.Compare) and len(atom.ops) == 1 and isinstance(atom.ops[0], (ast.In, ast.NotIn)) and (v.table_of(atom.comparators[0]) or (None, None))[1] == "_edge_list":
+                    exists_test = atom.left
+                    is_in = isinstance(atom.ops[0], ast.In)
+                if exists_test is None:
+                    continue
+                mentioned = {x.id for x in ast.walk(v.inline(exists_test)) if isinstance(x, ast.Name)}
+                arg_names = {x.id for x in ast.walk(v.inline(c.args[0])) if isinstance(x, ast.Name)}
+                if not (norm(exists_test) == norm(c.args[0]) or (arg_names and arg_names <= mentioned)):
+                    continue
+                lab = _implied_branch(iff.test, atom, not is_in)  # the branch on which the key is ABSENT
+                if lab and v.cfg.branch_dominated(tid, lab, cid):
+                    # merged by hand on the other branch?
+                    merges = [o for o in v.ops() if o.table == "_weights" and o.op in ("aug", "store")] + [n for n in walk_no_nested(v.fi.node) if isinstance(n, ast.Call) and isinstance(n.func, ast.Attribute) and is_self_attr(n.func) and n.func.attr == "set_weight"]
+                    verdict, why = ("unknown", "the re-insertion is skipped when the key exists; a hand-written merge was found but not checked") if merges else ("violation", f"the shrunken hyperedge is re-inserted only when `{norm(exists_test)}` is not yet a record: when it is, add_edge - which adds the weight to the existing record - is skipped and the weight of the removed record is lost")
+        res.add("P-REINSERT", f, norm(c), "always", verdict, why, _where(v, c))
     # P-LOOPVAR: key components used after the loop that bound them (stale time / layer / edge)
     for ob in stale_loop_vars(v):
         res.violation("P-LOOPVAR", f, ob[0], ob[1], "a loop variable is used after its loop ended: the re-inserted record takes the key component (time / layer) of the last processed record", ob[2])
